@@ -579,15 +579,50 @@ class Generator:
                 self.fuzzy.append('%s: anchor %r matched approximately' % (fn.qual, text))
             g = ghost_text(glines)
             if where == 'after':
-                # if the anchor text does not end a statement, make it one
-                tail_ = bm[b:].lstrip()
-                if bm[b - 1] not in ';}' and tail_.startswith('}'):
-                    g = ';\n' + g
-                elif bm[b - 1] not in ';}' and tail_.startswith(';'):
-                    b = b + bm[b:].index(';') + 1
+                # snap to the end of the statement the anchor lies in
+                if bm[b - 1] not in ';{}':
+                    j, depth = b, 0
+                    while j < len(bm):
+                        ch = bm[j]
+                        if ch in '([{':
+                            depth += 1
+                        elif ch in ')]}':
+                            if depth == 0:
+                                break      # tail expression of the enclosing block
+                            depth -= 1
+                        elif ch == ';' and depth == 0:
+                            break
+                        j += 1
+                    if j < len(bm) and bm[j] == ';':
+                        b = j + 1
+                    else:
+                        b = j
+                        g = ';\n' + g
                 inserts.append((b, '\n' + g + '\n', 'ghost'))
             else:
-                inserts.append((a, '\n' + g + '\n', 'ghost'))
+                # snap to the start of the statement the anchor lies in
+                j, depth = a - 1, 0
+                while j >= 0:
+                    ch = bm[j]
+                    if ch in ')]}':
+                        if ch == '}' and depth == 0:
+                            break
+                        depth += 1
+                    elif ch in '([{':
+                        if depth == 0:
+                            break
+                        depth -= 1
+                    elif ch == ';' and depth == 0:
+                        break
+                    j -= 1
+                a2 = j + 1
+                # `else` / match-arm heads are not statement starts: keep the exact position then
+                between = bm[a2:a].strip()
+                if between and not re.match(r'^(let\b|[\w\.\[\]\*&]+\s*(=|\+=|-=)|return\b|[\w\.:<>]+\(?)', between):
+                    a2 = a
+                if '=>' in between or between.startswith('else'):
+                    a2 = a
+                inserts.append((a2, '\n' + g + '\n', 'ghost'))
         # loops
         loop_pos = [mt for mt in re.finditer(r'(?<![A-Za-z0-9_])(while|loop|for)\b', bm)]
         loop_pos = [mt for mt in loop_pos if not re.match(r'\s*<', bm[mt.end():])]  # not `for<'a>`
